@@ -480,8 +480,55 @@ def body_shard(seed, n_examples):
     return core.finish_shard(stats, v, None)
 
 
+def derived_case(case):
+    """Nested regions whose conditions are DERIVED from the conditions of the regions around them (c & e inside the region
+    of c, ~c in an else-like region, c | e ...): o { c { t = derive(c, e); t { body } } } with an invalid body. Whenever some
+    enclosing condition (o, c or t) is false nothing raises and the recorded witness satisfies everything; when all are true
+    the body fails as it does unguarded."""
+    o, c, e, derive, body, form = case["o"], case["c"], case["e"], case["derive"], case["body"], case["form"]
+    bodies = {"truediv": [["const", 2], ["op", "truediv", [3, 5 + 0]]], "assert": [["const", 8], ["op", "assert_eq", [3, 5]]],
+              "lt": [["const", 1 << 200], ["op", "lt", [3, 5]]], "mul": [["const", 2], ["op", "mul", [3, 5]]]}
+    dstmt = {"and": ["op", "and", [1, 2]], "and-rev": ["op", "and", [2, 1]], "or": ["op", "or", [1, 2]], "xor": ["op", "xor", [1, 2]],
+             "not": ["op", "invert", [1]], "same": ["op", "and", [1, 1]]}[derive]
+    inner = [dstmt, ["guard", form, 4, bodies[body]]]
+    prog = {"cfg": {"p": case["p"], "b": 8, "r": 0, "ignore": False},
+            "stmts": [["in", "priv", "B", o], ["in", "priv", "B", c], ["in", "priv", "B", e], ["in", "priv", "I", 7],
+                      ["guard", form, 0, [["guard", form, 1, inner]]]]}
+    t = {"and": c & e, "and-rev": c & e, "or": c | e, "xor": c ^ e, "not": 1 - c, "same": c}[derive]
+    live = o and c and t
+    m = ir.run_program(prog)
+    invalid = body in ("truediv", "assert", "lt")
+    if m.raised is not None:
+        if live and invalid:
+            return None, prog
+        return "conditions o=%d, c=%d, %s -> %d, body %s: raised %s: %s although %s" % (
+            o, c, derive, t, body, type(m.raised[1]).__name__, m.raised[1], "the body is valid" if live else "an enclosing condition is false"), prog
+    if live and invalid:
+        return "conditions o=%d, c=%d, %s -> %d all true: the invalid body (%s) did not fail as it does unguarded" % (o, c, derive, t, body), prog
+    msg = consistent(m)
+    if msg:
+        return "conditions o=%d, c=%d, %s -> %d, body %s: %s" % (o, c, derive, t, body, msg), prog
+    return None, prog
+
+
+def derived_shard(p):
+    import itertools
+    stats = core.Stats()
+    found = {}
+    for o, c, e, derive, body, form in itertools.product((0, 1), (0, 1), (0, 1), ("and", "and-rev", "or", "xor", "not", "same"), ("truediv", "assert", "lt", "mul"), ("lc", "bool")):
+        case = {"part": "derived", "p": p, "o": o, "c": c, "e": e, "derive": derive, "body": body, "form": form}
+        msg, prog = derived_case(case)
+        stats.case(case, not (o and c), ("derived-condition:" + derive,), sample_cap=1)
+        if msg:
+            found.setdefault("derived." + derive + "." + body, {"case": case, "key": "derived." + derive, "msg": msg})
+    stats.violations = list(found.values())
+    return stats
+
+
 def replay(case):
     part = case.get("part")
+    if part == "derived":
+        return derived_case(case)[0]
     if part == "lazy":
         return lazy_case(case)[0]
     if part == "enforce":
@@ -538,6 +585,7 @@ def run(ctx):
     for p, b in enf:
         items = [(k.name, prm) for k in c03.kinds(b) for prm in k.params if k.optype == "I"]
         total.merge_json(core.run_shards("harness.checks.c07", "enforce_shard", [dict(items=items[i::16], p=p, b=b) for i in range(16)]).to_json())
+    total.merge_json(core.run_shards("harness.checks.c07", "derived_shard", [dict(p="bn128"), dict(p="bls12-381")]).to_json())
     total.merge_json(core.run_shards("harness.checks.c07", "body_shard", [dict(seed=ctx.seed * 1000 + i, n_examples=nbody) for i in range(16)]).to_json())
     ctx.stats = total
     replay_known(ctx, replay)
